@@ -13,7 +13,8 @@ from .. import simfs
 
 DEFAULT = simfs.DEFAULT_FMT
 FORMATS = [DEFAULT, "4Y-2M-2D 2h:2m:2s", "4Y-2M-2DT2h:2m:2sZ",
-           "2D/2M/4Y 2h:2m:2s.3z", "4Y2M2D2h2m2s", "2h:2m:2s 2D-2M-4Y", "2M/2D/4Y 2h:2m:2s"]
+           "2D/2M/4Y 2h:2m:2s.3z", "4Y2M2D2h2m2s", "2h:2m:2s 2D-2M-4Y", "2M/2D/4Y 2h:2m:2s",
+           "2D/2M/4Y 2h:2m:2s.2z", "4Y-2M-2D 2h:2m:2s.1z"]           # hundredths / tenths of a second
 GPX_FMT = "4Y-2M-2DT2h:2m:2sZ"
 GPX_OK_READ = (GPX_FMT, "4Y-2M-2DT2h:2m:2s")
 SPECIAL_T = [(2020, 2, 29, 23, 59, 59), (2019, 12, 31, 23, 59, 59), (2020, 1, 1, 0, 0, 0),
@@ -183,6 +184,11 @@ class IoWorld(World):
             pos = {v: [r.choice([r.uniform(-179, 179)] * 4 + tiny), r.choice([r.uniform(-89, 89)] * 4 + tiny)]
                    for v in ids}
         edges = []
+        # a network digitised by hand: the roads meeting at a junction end a centimetre or two apart
+        ragged = r.random() < 0.15
+
+        def end(p):
+            return [p[0] + r.choice([0, 0, 0.02, -0.015]), p[1] + r.choice([0, 0, 0.01])] if ragged and kind == "ENU" else p
         for k in range(r.randint(1, 6)):
             a, b = r.choice(ids), r.choice(ids)
             mids = [[pos[a][0] + r.uniform(-1, 1), pos[a][1] + r.choice([0.25, -1.5, r.uniform(-1, 1)])]
@@ -190,7 +196,7 @@ class IoWorld(World):
             eid = "e%d" % k
             if k >= 1 and r.random() < 0.08:
                 eid = "e%d" % r.randrange(k)         # an identifier used again: the earlier edge is replaced
-            edges.append([eid, a, b, r.choice([0, 0, 1, -1]), [pos[a]] + mids + [pos[b]]])
+            edges.append([eid, a, b, r.choice([0, 0, 1, -1]), [end(pos[a])] + mids + [end(pos[b])]])
         return {"kind": kind, "edges": edges}
 
     def _path(self, r, s, stem, ext, n=3):
